@@ -79,6 +79,8 @@ struct Excl {
     /// C01's open findings (WAL files not pruned after a clean restart / after compaction + restart) store events twice;
     /// selections de-duplicate by id, but LIMIT is applied before that and then returns fewer rows than exist
     no_restart: bool,
+    /// open finding: ORDER BY + LIMIT + OFFSET over several segments / shards returns a wrong slice
+    ordered_offset: bool,
 }
 
 const SORT_FIELDS: [&str; 7] = ["x", "f", "s", "t", "o", "u", "timestamp"];
@@ -103,8 +105,13 @@ fn case_strategy(tier: Tier, ex: Excl, wx: crate::props::c02::WhereExcl) -> Boxe
             let order = if fields.is_empty() { Just(None).boxed() } else { opt_w(0.8, (prop::sample::select(fields), any::<bool>()).prop_map(|(f, d)| (f.to_string(), d))) };
             let q = (order, opt_w(0.7, prop_oneof![Just(0u32), Just(1), 2u32..6, 6u32..40, Just(1000)]), opt_w(if ex.offset { 0.0 } else { 0.4 }, prop_oneof![Just(0u32), Just(1), 2u32..6, 6u32..40]), opt_w(0.3, wh), opt_w(0.25, 0..n_ctx), any::<bool>())
                 .prop_map(move |(order, limit, offset, wh, ctx, ret)| {
-                    let limit = if ex.limit_with_order && order.is_some() && !sub_region() { None } else { limit };
+                    // open finding: the ordered top-k zone pre-selection ignores WHERE and FOR, so ORDER BY + LIMIT is only
+                    // combined with them when the finding is closed (without them it is explored since fix 7e1b1f4); the string
+                    // planner (text sort keys) mis-plans as well (ORDER BY s ASC LIMIT 1 returned "ab" with "B" and "a" stored)
+                    let string_key = order.as_ref().map(|o| o.0 == "s").unwrap_or(false);
+                    let limit = if ex.limit_with_order && order.is_some() && (wh.is_some() || ctx.is_some() || string_key) && !sub_region() { None } else { limit };
                     let ret = if ex.where_not_returned && order.is_some() && wh.is_some() { false } else { ret };
+                    let offset = if ex.ordered_offset && order.is_some() && limit.is_some() { None } else { offset };
                     OQ { order, limit, offset, wh, ctx, ret }
                 });
             (Just(cfg), Just(td), Just(n_ctx), ops, tail, prop::collection::vec(q, 6..=tier.pick(14, 24)))
@@ -140,7 +147,7 @@ fn cmp_keys(a: &Value, b: &Value) -> Option<Ordering> {
 static EXCL: Mutex<Option<Excl>> = Mutex::new(None);
 
 fn run_case(c: &Case, rep: &mut CaseReport) -> Verdict {
-    let ex = EXCL.lock().unwrap().unwrap_or(Excl { order_by: [false; 7], offset: false, limit_with_order: false, mixed_tiers: false, where_not_returned: false, no_restart: false });
+    let ex = EXCL.lock().unwrap().unwrap_or(Excl { order_by: [false; 7], offset: false, limit_with_order: false, mixed_tiers: false, where_not_returned: false, no_restart: false, ordered_offset: false });
     let types = vec![c.td.clone()];
     let mut w = match World::start("c10", &c.cfg, &types, true) {
         Ok(w) => w,
@@ -179,7 +186,13 @@ fn run_case(c: &Case, rep: &mut CaseReport) -> Verdict {
                 rep.excluded_known += 1;
                 continue;
             }
-            if ex.limit_with_order && q.order.is_some() && q.limit.is_some() {
+            if ex.limit_with_order && q.order.is_some() && q.limit.is_some() && mixed && !sub_region() {
+                // same open finding: with rows in memory and in segments the zone plan only knows the segments, and the
+                // ordered answer with a LIMIT depends on which flow delivers first (flaky wrong slice)
+                rep.excluded_known += 1;
+                continue;
+            }
+            if ex.limit_with_order && q.order.is_some() && q.limit.is_some() && sub_region() {
                 // experiment: ORDER BY + LIMIT is judged only without WHERE / FOR, on L0 segments and memory, before any restart
                 let fields_ok = std::env::var("VCHECK_C10_SUB").map(|v| v.split(',').any(|f| f == q.order.as_ref().unwrap().0 || f == "all")).unwrap_or(false);
                 let simple = q.wh.is_none() && q.ctx.is_none() && !layout.iter().any(|l| l == "layout:l1" || l == "layout:l2" || l == "layout:l3" || l == "layout:restarted") && fields_ok;
@@ -346,7 +359,7 @@ pub fn run(ctx: &Ctx) -> i32 {
     for (i, f) in SORT_FIELDS.iter().enumerate() {
         order_by[i] = ctx.open(&format!("order.by_{}", f));
     }
-    let ex = Excl { order_by, offset: ctx.open("order.offset"), limit_with_order: ctx.open("order.limit_with_order"), mixed_tiers: ctx.open("order.memory_and_segments"), where_not_returned: ctx.open("order.where_field_not_returned"), no_restart: ctx.open_any("crash.after_manual_flush_or_clean_restart") || ctx.open_any("crash.store_after_compaction_and_restart") };
+    let ex = Excl { order_by, offset: ctx.open("order.offset"), limit_with_order: ctx.open("order.limit_with_order"), mixed_tiers: ctx.open("order.memory_and_segments"), where_not_returned: ctx.open("order.where_field_not_returned"), no_restart: ctx.open_any("crash.after_manual_flush_or_clean_restart") || ctx.open_any("crash.store_after_compaction_and_restart"), ordered_offset: ctx.open("order.offset_with_order_and_limit") };
     *EXCL.lock().unwrap() = Some(ex);
     crate::props::c02::KNOWN_ID_REUSE.store(ctx.open_any("layout.stale_cache_after_id_reuse"), std::sync::atomic::Ordering::Relaxed);
     let wx = crate::props::c02::WhereExcl::from_ctx_any(ctx);
